@@ -104,8 +104,8 @@ def resample_to_approx_dt(asig, target_dt=0.01, even=True):
         factor = int(np.ceil(factor))
     else:
         factor = 1 / np.floor(1 / factor)
-    new_npts = factor * asig.npts
-    if even:
-        new_npts = 2 * int(new_npts / 2)
+    new_npts = int(round(factor * asig.npts))
     acc_interp = resample(asig.values, new_npts)
+    if even:
+        acc_interp = acc_interp[:2 * int(new_npts / 2)]
     return eqsig.AccSignal(acc_interp, asig.dt / factor)
